@@ -26,6 +26,11 @@ pub enum OpKind {
     MutexUnlock,
     /// `try_lock`: never blocks; `ok` in `after` tells whether the lock was taken
     MutexTryLock,
+    /// `try_read` / `try_write` of the RwLock: never block; `ok` tells whether the lock was taken
+    RwTryRead,
+    RwTryWrite,
+    /// any other read-modify-write (fetch_max / min / and / or / xor ...): `a` = operand, result = old value
+    Rmw,
     RwReadLock,
     RwReadUnlock,
     RwWriteLock,
@@ -109,6 +114,29 @@ pub mod sync {
                     #[inline]
                     fn addr(&self) -> usize {
                         &self.v as *const _ as usize
+                    }
+                    pub fn get_mut(&mut self) -> &mut $t {
+                        self.v.get_mut()
+                    }
+                    pub fn into_inner(self) -> $t {
+                        self.v.into_inner()
+                    }
+                    /// As in std: a compare_exchange_weak loop (each step is visible to the hooks).
+                    #[track_caller]
+                    pub fn fetch_update<F: FnMut($t) -> Option<$t>>(
+                        &self,
+                        set_order: Ordering,
+                        fetch_order: Ordering,
+                        mut f: F,
+                    ) -> Result<$t, $t> {
+                        let mut prev = self.load(fetch_order);
+                        while let Some(next) = f(prev) {
+                            match self.compare_exchange_weak(prev, next, set_order, fetch_order) {
+                                Ok(x) => return Ok(x),
+                                Err(x) => prev = x,
+                            }
+                        }
+                        Err(prev)
                     }
                     #[track_caller]
                     pub fn load(&self, o: Ordering) -> $t {
@@ -198,6 +226,41 @@ pub mod sync {
                 }
             };
         }
+        macro_rules! atomic_default {
+            ($name:ident, $t:ty) => {
+                impl Default for $name {
+                    fn default() -> Self {
+                        Self::new(<$t>::default())
+                    }
+                }
+                impl From<$t> for $name {
+                    fn from(v: $t) -> Self {
+                        Self::new(v)
+                    }
+                }
+            };
+        }
+        macro_rules! atomic_rmw {
+            ($name:ident, $t:ty, $($m:ident),*) => {
+                impl $name {
+                    $(
+                    #[track_caller]
+                    pub fn $m(&self, val: $t, o: Ordering) -> $t {
+                        match current() {
+                            None => self.v.$m(val, o),
+                            Some(h) => {
+                                let op = mk(OpKind::Rmw, self.addr(), o, o, val as u64, 0);
+                                h.before(&op);
+                                let r = self.v.$m(val, o);
+                                h.after(&op, r as u64, true);
+                                r
+                            }
+                        }
+                    }
+                    )*
+                }
+            };
+        }
         macro_rules! atomic_arith {
             ($name:ident, $t:ty) => {
                 impl $name {
@@ -233,8 +296,26 @@ pub mod sync {
         atomic_int!(AtomicU64, std::sync::atomic::AtomicU64, u64);
         atomic_int!(AtomicI64, std::sync::atomic::AtomicI64, i64);
         atomic_int!(AtomicBool, std::sync::atomic::AtomicBool, bool);
+        atomic_int!(AtomicUsize, std::sync::atomic::AtomicUsize, usize);
+        atomic_int!(AtomicU32, std::sync::atomic::AtomicU32, u32);
+        atomic_int!(AtomicI32, std::sync::atomic::AtomicI32, i32);
         atomic_arith!(AtomicU64, u64);
         atomic_arith!(AtomicI64, i64);
+        atomic_arith!(AtomicUsize, usize);
+        atomic_arith!(AtomicU32, u32);
+        atomic_arith!(AtomicI32, i32);
+        atomic_rmw!(AtomicU64, u64, fetch_max, fetch_min, fetch_and, fetch_or, fetch_xor, fetch_nand);
+        atomic_rmw!(AtomicI64, i64, fetch_max, fetch_min, fetch_and, fetch_or, fetch_xor, fetch_nand);
+        atomic_rmw!(AtomicUsize, usize, fetch_max, fetch_min, fetch_and, fetch_or, fetch_xor, fetch_nand);
+        atomic_rmw!(AtomicU32, u32, fetch_max, fetch_min, fetch_and, fetch_or, fetch_xor, fetch_nand);
+        atomic_rmw!(AtomicI32, i32, fetch_max, fetch_min, fetch_and, fetch_or, fetch_xor, fetch_nand);
+        atomic_rmw!(AtomicBool, bool, fetch_and, fetch_or, fetch_xor, fetch_nand);
+        atomic_default!(AtomicU64, u64);
+        atomic_default!(AtomicI64, i64);
+        atomic_default!(AtomicUsize, usize);
+        atomic_default!(AtomicU32, u32);
+        atomic_default!(AtomicI32, i32);
+        atomic_default!(AtomicBool, bool);
     }
 
     // ---------------------------------------------------------------- Mutex (std-shaped)
@@ -268,6 +349,15 @@ pub mod sync {
                 h.after(&op, 0, true);
             }
             Ok(MutexGuard { g: Some(g), addr })
+        }
+        pub fn get_mut(&mut self) -> std::sync::LockResult<&mut T> {
+            Ok(self.inner.get_mut().unwrap_or_else(|e| e.into_inner()))
+        }
+        pub fn into_inner(self) -> std::sync::LockResult<T> {
+            Ok(self.inner.into_inner().unwrap_or_else(|e| e.into_inner()))
+        }
+        pub fn is_poisoned(&self) -> bool {
+            false
         }
         #[track_caller]
         pub fn try_lock(&self) -> std::sync::TryLockResult<MutexGuard<'_, T>> {
@@ -365,6 +455,40 @@ pub mod sync {
                 h.after(&op, 0, true);
             }
             RwLockReadGuard { g: Some(g), addr }
+        }
+        pub fn get_mut(&mut self) -> &mut T {
+            self.inner.get_mut()
+        }
+        pub fn into_inner(self) -> T {
+            self.inner.into_inner()
+        }
+        #[track_caller]
+        pub fn try_read(&self) -> Option<RwLockReadGuard<'_, T>> {
+            let addr = &self.inner as *const _ as usize;
+            let h = current();
+            let op = mk(OpKind::RwTryRead, addr, Ordering::Acquire, Ordering::Relaxed, 0, 0);
+            if let Some(h) = &h {
+                h.before(&op);
+            }
+            let g = self.inner.try_read();
+            if let Some(h) = &h {
+                h.after(&op, 0, g.is_some());
+            }
+            g.map(|g| RwLockReadGuard { g: Some(g), addr })
+        }
+        #[track_caller]
+        pub fn try_write(&self) -> Option<RwLockWriteGuard<'_, T>> {
+            let addr = &self.inner as *const _ as usize;
+            let h = current();
+            let op = mk(OpKind::RwTryWrite, addr, Ordering::Acquire, Ordering::Relaxed, 0, 0);
+            if let Some(h) = &h {
+                h.before(&op);
+            }
+            let g = self.inner.try_write();
+            if let Some(h) = &h {
+                h.after(&op, 0, g.is_some());
+            }
+            g.map(|g| RwLockWriteGuard { g: Some(g), addr })
         }
         #[track_caller]
         pub fn write(&self) -> RwLockWriteGuard<'_, T> {
